@@ -24,6 +24,7 @@ class Ctx:
         self.rules_doc: dict[str, str] = {}
         self._cfgs: dict[int, CFG] = {}
         self.typed = False
+        self.partial = None
 
     # ------------------------------------------------------------------ anchors
     def func(self, rel, qual, rule="anchor") -> FuncInfo:
